@@ -417,6 +417,11 @@ def execute(
         out.values = [(x.status.value, x.values, x.error) for x in out.result]
     else:
         res = out.result
+        if not hasattr(res, "status") or not hasattr(res, "values"):
+            # the call returned something that is not a RunResult (e.g. None after a swallowed error)
+            out.status = f"returned:{type(res).__name__}"
+            out.values = None
+            return out
         out.status = res.status.value
         out.values = res.values
         out.error = res.error
